@@ -379,7 +379,7 @@ var c07ModelledMeths = map[string]bool{}
 func init() {
 	for _, n := range strings.Fields(`accept map reduce sum mapReduce mean min max minMax combine combine3 combineN indexWhere
  groupByString groupByInt groupByEqual uniqueString uniqueInt compact cross merge order orderRev orderLess reverse append
- iir iirCombine visit fsm top skip number present set size first single last eval movingWindow movingWindowRemove
+ iir iirCombine visit fsm top skip number present set size first single last eval movingWindow movingWindowRemove replaceList
  len string trim toLower toUpper contains indexOf split cut replace toInt toFloat get put isAvail list multiUse`) {
 		c07ModelledMeths[n] = true
 	}
@@ -1354,6 +1354,7 @@ func init() {
 		"eval":               {"list", "list", none},
 		"movingWindow":       {"list", "list", f1("key")},
 		"movingWindowRemove": {"list", "list", f1("listbool")},
+		"replaceList":        {"list", "any", f1("listsize")},
 		// strings
 		"len":      {"str", "num", none},
 		"string":   {"any", "str", none},
